@@ -440,13 +440,15 @@ def judge_sensor(rec, mjm, i, got, ref, noise, coarse, gated, struct_ok, constra
     return "incon"
   rec.count("judged:" + name)
   sig = "sensor:" + name
-  if t in DISTFAM and contact_off:
+  # "no distance found" output of the geom-distance family: cutoff / zero vector
+  nodist = t in DISTFAM and ((t == int(S.mjSENS_GEOMDIST) and abs(g[0] - mjm.sensor_cutoff[i]) <= 1e-6 * max(1.0, mjm.sensor_cutoff[i])) or (t != int(S.mjSENS_GEOMDIST) and not np.any(g != 0)))
+  if t in DISTFAM and contact_off and nodist:
     sig += ":contact-disabled"  # MuJoCo's mj_geomDistance does not depend on the CONTACT flag
   elif t == int(S.mjSENS_TOUCH) and mjm.sensor_cutoff[i] > 0 and r[0] == mjm.sensor_cutoff[i] and g[0] > r[0]:
     sig = "sensor:touch:cutoff-not-applied"
   elif t in LIMIT_ROWS and limit_cross_type_row(mjm, mjd, i):
     sig = "sensor:limit-sensor-reads-other-constraint-type"  # own mechanism: efc_id matched without checking joint vs tendon
-  elif t in DISTFAM and distfam_has_capsule_pair(mjm, i):
+  elif t in DISTFAM and nodist and distfam_has_capsule_pair(mjm, i):
     sig += ":capsule-capsule"  # own mechanism: capsule_capsule() drops distances beyond the contact margin
   if t in QUAT:
     if np.abs(g + r).max() < np.abs(g - r).max():
